@@ -49,7 +49,7 @@ def numerical_distances(x_values, y_values):
     ds : np.ndarray
         The matrix of distances.
     """
-    xx, yy = np.meshgrid(x_values, y_values)
+    xx, yy = np.meshgrid(x_values, y_values, indexing='ij')
     return abs(xx - yy)
 
 
@@ -72,14 +72,14 @@ def earth_movers_distance_pmf(x, y, distances=None):
     emd : float
         The Earth Mover's Distance.
     """
-    n = len(x)
+    n, m = len(x), len(y)
 
     if distances is None:
         # assume categorical distribution
         distances = categorical_distances(n)
 
-    eye = np.eye(n)
-    A = np.vstack([np.dstack([eye] * n).reshape(n, n**2), np.tile(eye, n)])
+    # Flow f[i, j] from x[i] to y[j]: rows sum to x, columns sum to y.
+    A = np.vstack([np.kron(np.eye(n), np.ones(m)), np.kron(np.ones(n), np.eye(m))])
 
     b = np.concatenate([x, y], axis=0)
 
